@@ -62,7 +62,7 @@ impl<'a> ColrInstance<'a> {
         let var_store = self.var_store.as_ref().unwrap();
         if let Some(index_map) = self.index_map.as_ref() {
             for (i, delta) in deltas.iter_mut().enumerate() {
-                let var_index = var_index_base + i as u32;
+                let var_index = var_index_base.wrapping_add(i as u32);
                 if let Ok(delta_ix) = index_map.get(var_index) {
                     *delta = var_store
                         .compute_float_delta(delta_ix, self.coords)
@@ -71,7 +71,7 @@ impl<'a> ColrInstance<'a> {
             }
         } else {
             for (i, delta) in deltas.iter_mut().enumerate() {
-                let var_index = var_index_base + i as u32;
+                let var_index = var_index_base.wrapping_add(i as u32);
                 // If we don't have a var index map, use our index as the inner
                 // component and set the outer to 0.
                 let delta_ix = DeltaSetIndex {
